@@ -740,7 +740,7 @@ def traffic_cases(draw, model=None):
             "line_sz": line_sz, "capacity": capacity, "capacity2": capacity2, "rot": draw(st.integers(1, 3))}
 
 
-PARTS = [Part("traffic", traffic_cases(), check_traffic, n_quick=600, n_thorough=3000)]
+PARTS = [Part("traffic", traffic_cases(), check_traffic, n_quick=1200, n_thorough=4000)]
 
 
 # --------------------------------------------------------------------------
@@ -879,3 +879,262 @@ def kernel_cases(draw):
 
 
 PARTS.append(Part("kernel", kernel_cases(), check_kernel, n_quick=300, n_thorough=1500))
+
+
+# --------------------------------------------------------------------------
+# part "enum": every small read-only access pattern, run completely
+# --------------------------------------------------------------------------
+
+def _rgs(n, kmax):
+    """restricted growth strings of length n with at most kmax symbols
+    (= access patterns up to renaming of the lines)"""
+    def rec(prefix, used):
+        if len(prefix) == n:
+            yield list(prefix)
+            return
+        for x in range(min(used + 1, kmax)):
+            yield from rec(prefix + [x], max(used, x + 1))
+    yield from rec([], 0)
+
+
+def _enum_case(model, pattern, newwin, lines, evict):
+    """A[K] read through loop (M, K); access i touches line pattern[i];
+    newwin[i] starts a new M iteration before access i."""
+    rows = []
+    m = k = 0
+    for i, ln in enumerate(pattern):
+        if i and newwin[i - 1]:
+            m, k = m + 1, 0
+        rows.append([m, k, m, ln, ln])
+        k += 1
+    b = {"tensor": "A", "rank": "K", "type": "payload", "trace": 0}
+    if model == "buffet":
+        b["evict"] = evict
+    return {"model": model, "order": ["M", "K"],
+            "tensors": [{"name": "A", "ranks": [["K", "K"]], "shape": [3],
+                         "fmt": [{"layout": "contiguous", "cbits": 1, "pbits": 2}]}],
+            "bindings": [b], "traces": [{"depth": 2, "read": rows, "write": None}],
+            "line_sz": 2, "capacity": 2 * lines, "capacity2": 2 * lines + 2, "rot": 1}
+
+
+def enum_cases(tier):
+    cmax, bmax = (5, 4) if tier == "quick" else (7, 5)
+    for n in range(1, cmax + 1):
+        for pat in _rgs(n, 3):
+            for lines in range(4):
+                # the cache ignores the loop structure: one M iteration per access pattern
+                yield _enum_case("cache", pat, [0] * (n - 1), lines, None)
+    for n in range(1, bmax + 1):
+        for pat in _rgs(n, 3):
+            for mask in itertools.product([0, 1], repeat=n - 1):
+                yield _enum_case("buffet", pat, list(mask), 1, "M")
+                if not any(mask):
+                    yield _enum_case("buffet", pat, list(mask), 0, "root")
+
+
+def check_enum(case, rec):
+    check_traffic(case, rec)
+    rec.nontrivial(len(case["traces"][0]["read"]) >= 3)
+
+
+# --------------------------------------------------------------------------
+# part "filter": Traffic.filterTrace
+# --------------------------------------------------------------------------
+
+@st.composite
+def filter_cases(draw):
+    n = draw(st.integers(1, 3))
+    m = draw(st.integers(n, 3))
+    pt = st.tuples(*[st.integers(0, 3)] * n)
+    inp = sorted(draw(st.sets(pt, min_size=draw(st.sampled_from([0, 1, 3, 4])), max_size=9)))
+    fil = []
+    for _ in range(draw(st.integers(0, 10))):
+        pre = draw(st.sampled_from(inp)) if inp and draw(st.integers(0, 3)) else draw(pt)
+        fil.append(list(pre) + [draw(st.integers(0, 2)) for _ in range(m - n)])
+    fil.sort()
+    rows_in = [[i] * n + list(p) + [draw(st.integers(0, 9))] for i, p in enumerate(inp)]
+    rows_fil = [[i] * m + list(p) + [draw(st.integers(0, 9))] for i, p in enumerate(fil)]
+    return {"n": n, "m": m, "input": rows_in, "filter": rows_fil}
+
+
+def check_filter(case, rec):
+    n, m = case["n"], case["m"]
+    d = tempfile.mkdtemp(prefix="c17f-")
+    try:
+        fi, ff, fo = (os.path.join(d, x) for x in ("in-K-intersect_0.csv", "fil-N-iter.csv", "out.csv"))
+        write_rows(fi, LOOP, n, case["input"])
+        write_rows(ff, LOOP, m, case["filter"])
+        keep_in = open(fi).read()
+        keep_fil = open(ff).read()
+        Traffic.filterTrace(fi, ff, fo)
+        if listing(d) != sorted(os.path.basename(x) for x in (fi, ff, fo)):
+            raise Violation("temp-files", f"filterTrace left {listing(d)}")
+        if open(fi).read() != keep_in or open(ff).read() != keep_fil:
+            raise Violation("filter-modified-input", "filterTrace changed one of its input files")
+        present = {tuple(r[m:m + n]) for r in case["filter"]}
+        want = [header(LOOP, n)] + [",".join(str(v) for v in r) for r in case["input"]
+                                    if tuple(r[n:2 * n]) in present]
+        got = open(fo).read().splitlines()
+        if got != want:
+            raise Violation("filterTrace", f"kept rows {got[1:]} but the rows whose point occurs in the filter "
+                            f"are {want[1:]} (filter points {sorted(present)})")
+        kept = len(want) - 1
+        rec.cls("some-kept-some-dropped", 0 < kept < len(case["input"]))
+        rec.cls("filter-deeper-than-input", m > n)
+        rec.cls("filter-has-repeated-prefix", len(present) < len(case["filter"]))
+        rec.nontrivial(0 < kept < len(case["input"]) and len(present) < len(case["filter"]))
+    finally:
+        shutil.rmtree(d, ignore_errors=True)
+
+
+# --------------------------------------------------------------------------
+# part "combine": Traffic._combineTraces
+# --------------------------------------------------------------------------
+
+@st.composite
+def combine_cases(draw):
+    n = draw(st.integers(1, 3))
+    stamp = st.tuples(*[st.integers(0, 2)] * n)
+
+    def rows():
+        ss = sorted(draw(st.lists(stamp, max_size=7)))       # non-decreasing, repeats allowed
+        return [list(s) + [draw(st.integers(0, 3)) for _ in range(n)] + [draw(st.integers(0, 9))] for s in ss]
+    kind = draw(st.sampled_from(["rw", "rw", "rw", "r", "w"]))
+    return {"n": n, "read": rows() if "r" in kind else None, "write": rows() if "w" in kind else None}
+
+
+def check_combine(case, rec):
+    n = case["n"]
+    d = tempfile.mkdtemp(prefix="c17c-")
+    try:
+        args = {"comb_fn": os.path.join(d, "comb.csv")}
+        names = ["comb.csv"]
+        for acc in ("read", "write"):
+            if case[acc] is not None:
+                p = os.path.join(d, f"t-N-populate_{acc}_0.csv")
+                write_rows(p, LOOP, n, case[acc])
+                args[acc + "_fn"] = p
+                names.append(os.path.basename(p))
+        Traffic._combineTraces(**args)
+        if listing(d) != sorted(names):
+            raise Violation("temp-files", f"_combineTraces left {listing(d)}")
+        # stable merge: repeatedly take the write head only if its stamp is strictly earlier
+        rd = [(tuple(r[:n]), r, False) for r in case["read"] or []]
+        wr = [(tuple(r[:n]), r, True) for r in case["write"] or []]
+        merged = []
+        while rd or wr:
+            if wr and (not rd or wr[0][0] < rd[0][0]):
+                merged.append(wr.pop(0))
+            else:
+                merged.append(rd.pop(0))
+        want = [header(LOOP, n) + ",is_write"] + [",".join(str(v) for v in r) + "," + str(w) for _, r, w in merged]
+        got = open(args["comb_fn"]).read().splitlines()
+        if got != want:
+            raise Violation("combineTraces", f"combined trace {got} is not the stable merge {want}")
+        ties = bool(case["read"] and case["write"] and
+                    {tuple(r[:n]) for r in case["read"]} & {tuple(r[:n]) for r in case["write"]})
+        rec.cls("read-write-stamp-tie", ties)
+        rec.cls("one-sided", case["read"] is None or case["write"] is None)
+        rec.nontrivial(ties and len(merged) >= 4)
+    finally:
+        shutil.rmtree(d, ignore_errors=True)
+
+
+PARTS.append(Part("enum", None, check_enum, n_quick=0, n_thorough=0, enumerate=enum_cases,
+                  exhaustive_note="every read-only single-binding access pattern (up to renaming of lines) over <= 3 "
+                                  "lines: cache up to 5 (quick) / 7 (thorough) accesses x capacity 0..3 lines against "
+                                  "the exhaustive optimum; buffet up to 4 / 5 accesses x every split into eviction "
+                                  "windows"))
+PARTS.append(Part("filter", filter_cases(), check_filter, n_quick=400, n_thorough=2000))
+PARTS.append(Part("combine", combine_cases(), check_combine, n_quick=300, n_thorough=1500))
+
+
+# --------------------------------------------------------------------------
+# pinned reproducers of the recorded findings
+# --------------------------------------------------------------------------
+
+def _call(model, bindings, tensors, traces, capacity, line_sz):
+    """tiny direct driver: tensors {name: (rank_ids, shape, spec)}, traces
+    {(tensor, rank, type, access): (n, rows)} over loop ranks LOOP[:n]"""
+    d = tempfile.mkdtemp(prefix="c17p-")
+    try:
+        formats = {k: Format(Tensor(rank_ids=list(r), shape=list(sh)), {x: dict(v) for x, v in spec.items()})
+                   for k, (r, sh, spec) in tensors.items()}
+        fns = {}
+        for i, (key, (n, rows)) in enumerate(sorted(traces.items())):
+            fns[key] = os.path.join(d, f"p{i}-{LOOP[n - 1]}-{key[3]}.csv")
+            write_rows(fns[key], LOOP, n, rows)
+        fn = Traffic.buffetTraffic if model == "buffet" else Traffic.cacheTraffic
+        return fn([dict(b) for b in bindings], formats, fns, capacity, line_sz)
+    finally:
+        shutil.rmtree(d, ignore_errors=True)
+
+
+def pinned_p12():
+    """Z[M] (shape 2) is written at position 3 -- the insertion staging area,
+    never written back.  Listing an unrelated read-only binding of B[M]
+    (shape 8) after it makes the model charge a write-back for Z."""
+    tensors = {"Z": (["M"], [2], {"M": {"pbits": 32}}), "B": (["M"], [8], {"M": {"pbits": 32}})}
+    traces = {("Z", "M", "payload", "read"): (1, [[0, 0, 3]]),
+              ("Z", "M", "payload", "write"): (1, [[1, 0, 3]]),
+              ("B", "M", "payload", "read"): (1, [[0, 0, 0]])}
+    bz = {"tensor": "Z", "rank": "M", "type": "payload", "evict-on": "root"}
+    bb = {"tensor": "B", "rank": "M", "type": "payload", "evict-on": "root"}
+    z_last, _ = _call("buffet", [bb, bz], tensors, traces, 1024, 32)
+    z_first, _ = _call("buffet", [bz, bb], tensors, traces, 1024, 32)
+    if z_last["Z"]["write"] != 0 or z_first["Z"]["write"] != 0:
+        return (f"write to the staging area of Z (position 3 >= shape 2) charged {z_first['Z']['write']} bits "
+                f"when B (shape 8) is listed after Z, {z_last['Z']['write']} bits when B is listed first; "
+                f"expected 0 in both")
+    return None
+
+
+def pinned_p19():
+    """(a) A[M] coord (with a write trace: position 1 >= shape 1 is a pinned
+    staging line) and A[M] payload share a cache; at the last use of the pinned
+    coord line the head of the next-use queue is the payload line with the same
+    coordinates and is removed instead.  (b) one binding, read and write row
+    with the same stamp on two resident lines."""
+    out = []
+    tensors = {"A": (["M"], [1], {"M": {"cbits": 1, "pbits": 1}})}
+    traces = {("A", "M", "coord", "read"): (1, [[0, 0, 0], [1, 0, 1]]),
+              ("A", "M", "coord", "write"): (1, [[0, 0, 1]]),
+              ("A", "M", "payload", "read"): (1, [[0, 0, 1], [1, 0, 1]])}
+    bind = [{"tensor": "A", "rank": "M", "type": "coord"}, {"tensor": "A", "rank": "M", "type": "payload"}]
+    try:
+        got = _call("cache", bind, tensors, traces, 2, 1)
+        if got != ({"A": {"read": 2, "write": 0}}, 0):
+            out.append(f"(a) two bindings with equal line coordinates: {got}, expected 2 fills, no write-back")
+    except AssertionError as e:
+        out.append(f"(a) two bindings with equal line coordinates: AssertionError in {_lib_assert_site(e)}")
+    tensors = {"A": (["M"], [2], {"M": {"cbits": 1, "pbits": 1}})}
+    traces = {("A", "M", "coord", "read"): (1, [[0, 0, 0], [1, 0, 1], [2, 0, 0]]),
+              ("A", "M", "coord", "write"): (1, [[0, 0, 1], [1, 0, 0]])}
+    try:
+        got = _call("cache", bind[:1], tensors, traces, 2, 1)
+        if got != ({"A": {"read": 1, "write": 2}}, 0):
+            out.append(f"(b) read/write rows with one stamp on two resident lines: {got}, expected 1 fill, "
+                       f"2 write-backs")
+    except AssertionError as e:
+        out.append(f"(b) read/write rows with one stamp on two resident lines: AssertionError in "
+                   f"{_lib_assert_site(e)}")
+    return "; ".join(out) or None
+
+
+PINNED = {P12: pinned_p12, P19: pinned_p19}
+
+
+def coverage_warnings(rec):
+    def n(k):
+        return rec.classes.get(k, 0)
+    out = []
+    for k, base, floor in (("traffic:reuse-in-2-windows", "traffic:buffet", 0.15),
+                           ("traffic:capacity-pressure", "traffic:cache", 0.25),
+                           ("traffic:has-write", "traffic:cache", 0.3),
+                           ("traffic:staging-access", "traffic:cache", 0.2),
+                           ("traffic:exhaustive-optimum", "traffic:cache", 0.2),
+                           ("kernel:has-write", "kernel:cache", 0.3),
+                           ("filter:some-kept-some-dropped", "filter:filter-deeper-than-input", 0.3)):
+        if n(base) and n(k) / n(base) < floor:
+            out.append(f"{k} only {n(k)} against {n(base)} {base}")
+    return out
